@@ -91,6 +91,11 @@ CHECKS = {
          "Every history of up to 2 (thorough 3) updates from a 15-update alphabet over board, threaded news, accounts and bans; for every update and every boundary between two file-mutating system calls the goroutine is ended there, the four stores are re-constructed by the real constructors and must load and hold the complete old or complete new value with everything acknowledged intact; the remaining updates then run on the restarted stores (leftover temp files are exercised) and a final restart is compared with the acknowledged state.",
          "Kill at system-call boundaries only (no torn writes, no power loss); rename atomicity trusted; the shim's step log equals the traced system calls for all 15 update kinds (checked on every run).",
          "DESIGN.md §5 C20"),
+ "C19": ("model_checking",
+         "stateless schedule exploration (deviation-bounded DFS with hold-back) of concurrent board readers, posters and logins on the real handlers, with a linearizability-style oracle over the sequence of board values",
+         "All schedules with at most 2 (thorough 3) deviations of: two readers + a poster, a reader + two posters, two logins being shown the agreement, a reader + a login, for board/agreement sizes that need 1..26 locked Read calls: every served text must be one the store held in full, all posts kept newest first in protocol format, every user notified, the file equal to the served board at quiescence; plus a sequential sweep of sizes up to 65,000 bytes.",
+         "Three clients; scheduling points at sync/atomic/channel/connection/file-system operations.",
+         "DESIGN.md §5 C19"),
 }
 NOT_YET = "check not built yet in this session (see DESIGN.md §11 build order)"
 
